@@ -72,7 +72,7 @@ def workload(ctx):
         shape = 2 if h != w else 1
         for n in (2 * cap - 1, 2 * cap, 2 * cap + 1):
             ev.append(hl([48 + (i % 10) for i in range(n)], shape, (), (w, h), (0, 0) if cap < 400 else (), tag="digits-fill"))
-        if cap <= 250 or not ctx.quick:
+        if True:      # Base 256 runs that exactly fill / just miss each size (one- and two-byte length fields)
             for n in (cap - 3, cap - 2, cap - 1):
                 if n >= 1:
                     ev.append(hl([0xE9] * n, shape, (), (w, h), tag="b256-fill"))
@@ -101,6 +101,13 @@ def workload(ctx):
             t[rng.randrange(max(0, n - 8), n)] = rng.choice([78, 70, 65, 97, 110, 0xA0, 0xE9, 49, 32, 33, 1])
         shape, mn, mx = rng.choice(HINTS) if k % 5 == 0 else (0, (), ())
         ev.append(hl(t, shape, mn, mx, tag="c40-eod"))
+    # (9) histories: a text refused as too big for a small MAX_SIZE (leaving a mode encoder in the middle of a triplet / quadruple /
+    #     run) immediately followed by a text of the same mode - state kept between calls must not leak into the next encodation
+    for unit in ([65, 66, 42, 13], [65, 90, 32], [97, 122, 32], [94, 64, 33], [0xE9, 0x80], [49, 65, 97]):
+        for n in range(9, 24):
+            big = (unit * 30)[:n]
+            ev.append(hl(big, 1, (), (10, 10) if n < 14 else (12, 12), tag="history-refused"))
+            ev.append(hl((unit * 30)[:n + 3], tag="history-next"))
     # (5) non Latin-1 and empty texts must be refused
     ev.append(hl([0x3042, 65], tag="nonlatin1")); ev.append(hl([65, 0x20AC], tag="nonlatin1")); ev.append(hl([0x100], tag="nonlatin1"))
     return ev
